@@ -15,8 +15,8 @@ PROPS["C19"] = dict(
     phases=[dict(name="exhaustive", harness="c19.cpp", flavor="asan", mode="exhaustive", cases=dict(quick=720, thorough=40320)),
             dict(name="random", harness="c19.cpp", flavor="asan", mode="random", cases=dict(quick=20000, thorough=500000))],
     rule="case = (segment boundaries, ISN, arrival order, which ACK packets are delivered, block limit, receiver coalescing mode, tracker construction, per-packet encoding); "
-         "distinct = distinct (ISN, boundaries, order, delivery pattern[, variant]); non-trivial = every history processes >=0 delivered packets and the tracker state + queries are checked after "
-         "each one and in the initial state; exhaustive phase: case index = arrival order (factoradic), all orders enumerated",
+         "distinct = distinct (ISN, boundaries, order, delivery pattern[, variant]); non-trivial = every history has >=1 segment, the tracker state + queries are checked in the initial state and after "
+         "each delivered ACK packet; exhaustive phase: case index = arrival order (factoradic), all orders enumerated",
     floors=dict(
         quick={"distinct": 100000, "exhaustive_orders": 720, "exhaustive_histories": 150000, "packets": 800000, "queries": 100000000,
                "checks:ack_number": 800000, "checks:acked_intervals": 800000,
